@@ -20,7 +20,14 @@ def main():
             if res.unsupported: print('  UNSUPPORTED:', res.unsupported)
             if res.error: print('  ERROR:', res.error)
             for o in res.obligations:
-                print('  %-10s %s (%d paths) %s' % (o.status, o.id.split('/',1)[1], len(o.results), [r[2] for r in o.results if r[0]=='sat'][:1] if o.status=='failed' else ''))
-            print('  covers:', res.covers)
+                extra = ''
+                if o.status == 'failed':
+                    ms = [r[2] for r in o.results if r[0] == 'sat']
+                    m = ms[0] or {}
+                    extra = {k: v for k, v in m.items() if k.startswith('probe:') or k in ('exception', 'line')}
+                    extra = '%d/%d paths fail %s' % (len(ms), len(o.results), extra)
+                print('  %-10s %s (%d paths) %s' % (o.status, o.id.split('/',1)[1], len(o.results), extra))
+            bad = {k: v for k, v in res.covers.items() if v != 'reachable'}
+            if bad: print('  covers not reachable:', bad)
             if res.soft_skips: print('  soft skips:', res.soft_skips)
 main()
